@@ -688,6 +688,9 @@ type sockEnv struct {
 	s    socket.Socket
 	near *memconn.Conn
 	far  *memconn.Conn
+	// misaligned: the unread part of the stream does not start at a frame boundary (reading a message
+	// from it would interpret arbitrary bytes as a frame length - that is C06's subject, not this one's)
+	misaligned bool
 }
 
 func frameOf(seq int32, method, body string) []byte {
@@ -744,16 +747,23 @@ func applySock(e *sockEnv, o Op, log *[]string) {
 		rec("err=%v wire=%q", err, buf)
 	case "read-message-leftover":
 		// two frames and a bit arrive, one message is read: the rest stays in the socket's read buffer
+		if e.misaligned {
+			rec("skipped")
+			return
+		}
+		e.misaligned = true
 		e.far.Write(frameOf(int32(r.Intn(100)), "/first", "one"))
 		e.far.Write(frameOf(int32(r.Intn(100)), "/D-leftover", "D-leftover-body"))
 		e.far.Write([]byte("D-garbage"))
 		rec("%s", readMsg(e.s))
 	case "read-partial":
+		e.misaligned = true
 		e.far.Write([]byte("D-partial-0123456789"))
 		b := make([]byte, 3)
 		n, err := e.s.Read(b)
 		rec("n=%d err=%v %q", n, err, b[:n])
 	case "unread-garbage":
+		e.misaligned = true
 		e.far.Write([]byte(strings.Repeat("D-unread", 200)))
 	case "deadline":
 		// no observable getter; part of the history only
@@ -764,6 +774,7 @@ func applySock(e *sockEnv, o Op, log *[]string) {
 		e.s.Reset(a, socket.RawProtoFunc)
 		old.Close()
 		e.near, e.far = a, b
+		e.misaligned = false
 		rec("id=%q swaplen=%d", normID(e), e.s.SwapLen())
 	default:
 		panic("socket op " + o.Name)
@@ -921,19 +932,17 @@ func runObjects(itemID string, typ string, chunk, pairs int, rerun map[string]in
 		if d == nil {
 			continue
 		}
+		core.Add("violating_pairs_"+typ, 1)
+		if reported[fmt.Sprintf("C20/object/%s/%s/%s", typ, fieldLabel(d.Field), d.Symptom)] {
+			continue // one minimised witness per fingerprint and chunk
+		}
 		md, mn := minimise(t, dirty, next, acq, d)
 		d2, _ := t.trial(md, mn, acq)
 		if d2 == nil || d2.Field != d.Field {
 			md, mn, d2 = dirty, next, d
 		}
 		fp := fmt.Sprintf("C20/object/%s/%s/%s", typ, fieldLabel(d2.Field), d2.Symptom)
-		key := fp + "|" + classOf(md)
-		if reported[key] {
-			core.Add("violating_pairs_"+typ, 1)
-			continue
-		}
-		reported[key] = true
-		core.Add("violating_pairs_"+typ, 1)
+		reported[fp] = true
 		vid := fmt.Sprintf("%s-k%d", itemID, k)
 		desc := map[string]interface{}{"class": "object." + typ, "type": typ, "dirty_class": classOf(md), "dirty": md, "next": mn, "acq": acq, "rerun": rerun}
 		core.Begin(vid, desc)
